@@ -557,6 +557,16 @@ fn replay_rule(scn: &LoopScn, p: &Parsed, out: &LoopOut, c19: bool) -> Vec<Viola
 
 /// `complete_rounds = Some(k)`: the history was cut off (step budget) after
 /// k complete rounds; only "ran longer than the rule allows" can be judged.
+fn setup_note(setup: u64) -> String {
+    if setup == 0 {
+        String::new()
+    } else {
+        format!(
+            " [elapsed counted from just before the first sample; the loop's initial timestamp was taken {setup} ticks earlier, before the one-off measurement of benchmarking overheads]"
+        )
+    }
+}
+
 fn replay_rule_on(
     scn: &LoopScn,
     p: &Parsed,
@@ -594,8 +604,13 @@ fn replay_rule_on(
             return vs;
         }
     }
+    // "Elapsed time runs from just before the first sample": a one-off
+    // overhead measurement that ran *after* the initial timestamp was taken
+    // lies before that point, so the origin is the reading plus what the
+    // measurement took (nothing, when it ran earlier or cost nothing).
+    let setup = p.setup_ticks_after_initial;
     let initial = match (skip, p.initial) {
-        (false, Some(e)) => raw_of(e),
+        (false, Some(e)) => raw_of(e).map(|x| x.wrapping_add(setup)),
         (false, None) => {
             if rounds > 0 {
                 vs.push(v(class, "elapsed time must run from just before the first sample, but no initial timestamp was taken before the first round".into()));
@@ -632,8 +647,8 @@ fn replay_rule_on(
                 vs.push(v(
                     class,
                     format!(
-                        "{rounds} rounds ran, but the rule stops after round {r}: elapsed {elapsed} ps, max_time {maxp} ps, min_time {minp} ps, samples still wanted {:?}",
-                        rem
+                        "{rounds} rounds ran, but the rule stops after round {r}: elapsed {elapsed} ps, max_time {maxp} ps, min_time {minp} ps, samples still wanted {:?}{}",
+                        rem, setup_note(setup)
                     ),
                 ));
             }
@@ -648,8 +663,8 @@ fn replay_rule_on(
             vs.push(v(
                 class,
                 format!(
-                    "sampling stopped after {rounds} rounds, but the rule continues: elapsed {elapsed} ps < max_time {maxp} ps and (samples still wanted {:?} or elapsed < min_time {minp} ps)",
-                    rem
+                    "sampling stopped after {rounds} rounds, but the rule continues: elapsed {elapsed} ps < max_time {maxp} ps and (samples still wanted {:?} or elapsed < min_time {minp} ps){}",
+                    rem, setup_note(setup)
                 ),
             ));
             break;
